@@ -350,7 +350,7 @@ def _drift(ctx, rec):
 
 def run(ctx):
     from harness import growth
-    growth.knees2(ctx)
+    growth.safe(ctx, growth.knees2)
     ctx.rule = ("T: zmethod.knees on miss-ratio-like curves (harness.curves.mrc_curve and own families with plateaus, "
                 "coarse height grids, bumps, clusters of x; n = 4..200) x dx,dy,dz in {0.01,0.05,0.1,0.3,0.5,1} x "
                 "optional x_max / y_range overrides. non-trivial: the call returned at least two knees "
